@@ -33,12 +33,32 @@ def b_part(ctx):
     if not m:
         out['inconclusive'].append('layer B produced no verdict: ' + (p.stdout + p.stderr)[-400:]); return out
     out['coverage'] = {'evaluations': int(m.group(3)), 'distinct_nontrivial': int(m.group(4)), 'texts': int(m.group(2)), 'max_text_chars': maxlen,
-                       'alphabet': ['a', 'é', '€', '\\n', ' '], 'failures': int(m.group(5)), 'wall_s': round(time.time() - t0, 2),
-                       'rule': 'every text over the 5-symbol alphabet up to the length bound x every char-boundary position 0..=len x with/without file name, '
+                       'alphabet': ['a', 'é', '€', '\\n', ' ', '\\r'], 'failures': int(m.group(5)), 'wall_s': round(time.time() - t0, 2),
+                       'rule': 'every text over the 6-symbol alphabet up to the length bound x every char-boundary position 0..=len x with/without file name, '
                                'each distinct; non-trivial = text contains a newline',
                        'exhaustive': True,
                        'samples': [{'text': 'a\\né', 'position': 2, 'file': None, 'contract': 'Line 2 character 1, prints "é", caret under column 1'},
                                    {'text': '', 'position': 0, 'file': 'g.ebnf', 'contract': 'g.ebnf:1:1, prints empty line'}]}
+    # long lines: a fixed family (not exhaustive): k x 'a', "x\\n" + k x 'a' + "\\ny", k x 'é' for k around 2^8 and 2^16
+    pl = subprocess.run([B['bin'], 'long'], capture_output=True, text=True, timeout=3600)
+    ml = re.search(r'B-LONG-DONE cases=(\d+) failures=(\d+)', pl.stdout)
+    if not ml:
+        out['inconclusive'].append('layer B long-line family produced no verdict: ' + (pl.stdout + pl.stderr)[-300:])
+    else:
+        out['coverage']['long_line_cases'] = int(ml.group(1))
+        out['coverage']['long_line_family'] = 'texts a^k, x\\n a^k \\ny, é^k for k in {255,256,257,65534..65537,70000}; positions around 0, 2^8, 2^16, the end; with/without file (a fixed family, not exhaustive)'
+        out['coverage']['evaluations'] += int(ml.group(1))
+        longfails = re.findall(r'B-FAIL-LONG kind=(\d+) k=(\d+) pos=(\d+) file=(\S+) why=(".*")', pl.stdout)
+        seen = set()
+        for kind, k, pos, file, why in longfails:
+            if (kind, k, pos) in seen: continue
+            seen.add((kind, k, pos))
+            if len(seen) > 3: break
+            rp = ctx.replay_path('B-long-%s-%s-%s' % (kind, k, pos))
+            out['violations'].append({'id': 'B:long:%s:%s:%s' % (kind, k, pos), 'layer': 'B', 'long': [int(kind), int(k), int(pos)], 'file': file, 'replay': rp,
+                                      'no_failing_input': False, 'long_line': True,
+                                      'what': 'from_parse_error(text=%s, position=%s, file=%s): %s (%s failing long-line cases in total)' % (
+                                          ['"a" x %s' % k, '"x\\n" + "a" x %s + "\\ny"' % k, '"é" x %s' % k][int(kind)], pos, file, _unq(why), ml.group(2))})
     for f in fails[:6]:
         rp = ctx.replay_path('B-%s-%d-%s' % (f['hex'] or 'empty', f['pos'], 'f' if f['file'] != '-' else 'n'))
         out['violations'].append({'id': 'B:%s:%d:%s' % (f['hex'], f['pos'], f['file']), 'layer': 'B', 'text_hex': f['hex'], 'text': f['text'], 'position': f['pos'],
@@ -57,7 +77,10 @@ def _unq(s):
 def replay(ctx, v, path):
     B = prepare(ctx)
     if not B['bin']: print('cannot build layer B crate'); return 2
-    p = subprocess.run([B['bin'], 'replay', v.get('text_hex', ''), str(v['position']), v['file']], capture_output=True, text=True, timeout=60)
+    if v.get('long'):
+        p = subprocess.run([B['bin'], 'replay-long'] + [str(x) for x in v['long']] + [v['file']], capture_output=True, text=True, timeout=60)
+    else:
+        p = subprocess.run([B['bin'], 'replay', v.get('text_hex', ''), str(v['position']), v['file']], capture_output=True, text=True, timeout=60)
     print(p.stdout.strip())
     if 'B-REPLAY-FAIL' in p.stdout:
         print('VIOLATION property=%s replay=%s' % (ctx.prop, path)); return 1
